@@ -22,9 +22,13 @@ type answeringTransport struct {
 	consumed  chan struct{} // reader -> writer: response handled (slow-write mode)
 	slow      bool
 	cur       []byte
+	failFrom  int // >= 0: every Write that starts at or beyond this stream offset fails (nothing is accepted)
 }
 
 func (t *answeringTransport) Write(p []byte) (int, error) {
+	if t.failFrom >= 0 && t.written >= t.failFrom {
+		return 0, io.ErrClosedPipe
+	}
 	t.written += len(p)
 	for t.next < len(t.reqEnd) && t.written >= t.reqEnd[t.next] {
 		t.ready <- t.responses[t.next]
@@ -61,7 +65,7 @@ type c04Result struct {
 // responses on the same connection; every schedule of their synchronisation operations.
 func HarnessC04_Concurrent() {
 	nreq := 1 + vChoice(2+vTier())
-	t := &answeringTransport{ready: make(chan []byte, 4), consumed: make(chan struct{}, 4)}
+	t := &answeringTransport{ready: make(chan []byte, 4), consumed: make(chan struct{}, 4), failFrom: -1}
 	t.slow = vChoice(2) == 1
 	// reversed: both requests are pipelined and the peer answers the second one first
 	reversed := nreq == 2 && !t.slow && vChoice(2) == 1
@@ -107,7 +111,16 @@ func HarnessC04_Concurrent() {
 		t.reqEnd = append(t.reqEnd, off)
 		// the peer's response as wire bytes, produced by a second endpoint
 		sd := newDuplex()
-		NewProtocol(sd).WritePacket(res, 0)
+		if vChoice(2) == 1 {
+			// the peer answers with an AMF3 command message (type 17): one format byte, then the same AMF0 body
+			body, _ := res.MarshalBinary()
+			rm := NewMessage()
+			rm.MessageType = MessageTypeAMF3Command
+			rm.Payload = append([]byte{0}, body...)
+			NewProtocol(sd).WriteMessage(rm)
+		} else {
+			NewProtocol(sd).WritePacket(res, 0)
+		}
 		t.responses = append(t.responses, sd.out.data)
 	}
 	if reversed {
@@ -115,10 +128,18 @@ func HarnessC04_Concurrent() {
 		t.reqEnd[0] = t.reqEnd[1]
 		t.responses[0], t.responses[1] = t.responses[1], t.responses[0]
 	}
+	// failLast: the transport breaks after the first of two requests has left: the second write fails,
+	// the first request is still outstanding and its response still arrives
+	failLast := nreq == 2 && !t.slow && !reversed && vChoice(2) == 1
+	nread := nreq
+	if failLast {
+		t.failFrom = t.reqEnd[0]
+		nread = 1
+	}
 	done := make(chan c04Result)
 	go func() {
 		var r c04Result
-		for k := 0; k < nreq; k++ {
+		for k := 0; k < nread; k++ {
 			m, err := p.ReadMessage()
 			if err != nil {
 				r.errs++
@@ -151,7 +172,7 @@ func HarnessC04_Concurrent() {
 	}
 	r := <-done
 	wantConn, wantCS := 0, 0
-	for _, k := range kinds {
+	for _, k := range kinds[:nread] {
 		if k == 0 {
 			wantConn++
 		} else {
@@ -164,7 +185,11 @@ func HarnessC04_Concurrent() {
 		_, e := p.DecodeMessage(dup)
 		vAssert(e != nil, "no response is matched twice")
 	}
-	vAssert(werrs == 0, "requests are written")
+	if failLast {
+		vAssert(werrs == 1, "the request written to the broken transport reports the failure")
+	} else {
+		vAssert(werrs == 0, "requests are written")
+	}
 	vAssert(r.errs == 0, "no response fails to be read or decoded (no spurious 'no matched request')")
 	vAssert(r.connRes == wantConn && r.csRes == wantCS && r.other == 0, "every response is decoded as the response type of its request, exactly once")
 	vReach("concurrent")
